@@ -32,6 +32,9 @@ type pathInfo struct {
 	// selector atoms: for a phi that is branched on in another block than the one defining it,
 	// one bit per operand records through which edge the path entered the phi's block
 	sel map[*ssa.Phi][]uint64
+	// polarity atoms: for a condition value that is branched on in more than one block, which way
+	// the path went the first time (a later branch on the same value must agree)
+	pol map[ssa.Value][2]uint64
 }
 
 func (pi *pathInfo) predMask(m uint64) uint32 {
@@ -358,6 +361,40 @@ func (p *Prog) pathMasksD(fn *ssa.Function, preds []Pred, depth int) *pathInfo {
 			}
 		}
 	}
+	// polarity atoms for conditions branched on more than once
+	pi.pol = map[ssa.Value][2]uint64{}
+	condBlocks := map[ssa.Value]int{}
+	for _, b := range fn.Blocks {
+		if n := len(b.Instrs); n > 0 {
+			if iff, ok := b.Instrs[n-1].(*ssa.If); ok {
+				v, _ := stripNot(iff.Cond, true)
+				condBlocks[v]++
+			}
+		}
+	}
+	for _, b := range fn.Blocks { // deterministic order
+		if n := len(b.Instrs); n > 0 {
+			if iff, ok := b.Instrs[n-1].(*ssa.If); ok {
+				v, _ := stripNot(iff.Cond, true)
+				if _, done := pi.pol[v]; done || condBlocks[v] < 2 || len(pi.atomPred)+2 >= 61 {
+					continue
+				}
+				if _, isC := v.(*ssa.Const); isC {
+					continue
+				}
+				var bits [2]uint64
+				for k := 0; k < 2; k++ {
+					bits[k] = uint64(1) << uint(len(pi.atomPred))
+					pi.atomPred = append(pi.atomPred, -1)
+					pi.atomVal = append(pi.atomVal, v)
+					if in, ok := v.(ssa.Instruction); ok && in.Block() != nil {
+						pi.kill[in.Block().Index] |= bits[k]
+					}
+				}
+				pi.pol[v] = bits
+			}
+		}
+	}
 	// selector atoms for phis branched on outside their defining block
 	pi.sel = map[*ssa.Phi][]uint64{}
 	for _, b := range fn.Blocks {
@@ -499,6 +536,17 @@ func (p *Prog) pathMasksD(fn *ssa.Function, preds []Pred, depth int) *pathInfo {
 					selPhi, selLit = ph, l
 				}
 			}
+			// polarity of a condition branched on more than once
+			var polSet, polForbid uint64
+			if l, ok := edgeLit(b, s); ok {
+				if bits, has := pi.pol[l.V]; has && !l.Nil {
+					if l.Pos {
+						polSet, polForbid = bits[0], bits[1]
+					} else {
+						polSet, polForbid = bits[1], bits[0]
+					}
+				}
+			}
 			for m := range pi.in[b.Index] {
 				if m&noExit == noExit {
 					continue
@@ -508,6 +556,9 @@ func (p *Prog) pathMasksD(fn *ssa.Function, preds []Pred, depth int) *pathInfo {
 				}
 				if m&forceBit[1] != 0 && si != 1 && len(b.Succs) == 2 {
 					continue
+				}
+				if (m&^pi.kill[b.Index])&polForbid != 0 {
+					continue // the same condition was already taken the other way on this path
 				}
 				m &^= noExit
 				adds := adds
@@ -531,7 +582,7 @@ func (p *Prog) pathMasksD(fn *ssa.Function, preds []Pred, depth int) *pathInfo {
 				}
 				m = (m &^ selClear) | selSet
 				for _, add := range adds {
-					nm := (m &^ pi.kill[b.Index]) | add
+					nm := (m &^ pi.kill[b.Index]) | add | polSet
 					if pb == nil {
 						put(s, nm|force)
 						continue
@@ -1189,4 +1240,21 @@ func sentinelNeverNil(g *ssa.Global) bool {
 	res := ok && n > 0
 	sentinelMemo[g] = res
 	return res
+}
+
+// retPointsOf: the return points of one Return for result idx (phi operands enumerated per edge).
+func retPointsOf(ret *ssa.Return, idx int) []retPoint {
+	if idx >= len(ret.Results) {
+		return nil
+	}
+	v := ret.Results[idx]
+	b := ret.Block()
+	if phi, ok := v.(*ssa.Phi); ok && phi.Block() == b {
+		var res []retPoint
+		for i, e := range phi.Edges {
+			res = append(res, retPoint{ret, b.Preds[i], e})
+		}
+		return res
+	}
+	return []retPoint{{ret, nil, v}}
 }
